@@ -331,5 +331,6 @@ func main() {
 	r.Assume("'same list in any order' is read as the same multiset of addresses; lists that differ in multiplicity of an address (e.g. file peers whose Peers setting also names the node itself, giving a different duplicate on every node) are not required to agree and are not enumerated")
 	r.Assume("every node's own address is in the list it sees (a node absent from its own list cannot Start: it retries 5x5s and fails)")
 	clusterPart(r)
+	concurrentPart(r)
 	r.Finish()
 }
